@@ -22,7 +22,13 @@ def _candidates():
         Plain(x=1, y='s'), Plain(inner=Plain(v=[1, 2])), Other(q={'a': (1, 2)}),
         {'s1': shared, 's2': shared}, [shared, shared],
         'above interception limit', 10 ** 18, 1.5, 'a' * 300,
+        ([1, 2], {'k': [3]}), (Plain(m=[1]), 'x'),
     ]
+
+
+# pairs of structurally similar values of different type: a key / value scheme that forgets types confuses them
+CONFUSABLE = [((1, 2), [1, 2]), (Plain(x=1), Other(x=1)), (1, True), (1, 1.0), ('a', b'a'), ({1, 2}, [1, 2]),
+              ({'a': 1}, Plain(a=1)), (0, False), ('1', 1), ((1,), [1])]
 
 
 def _same(a, b):
@@ -75,9 +81,13 @@ def dropped():
 class Concretisation(object):
     """token -> concrete value; distinct tokens get values that are pairwise different (by same_value)."""
 
-    def __init__(self, seed, prefer_mutable=False):
+    def __init__(self, seed, prefer_mutable=False, confusable=()):
         self.rnd = random.Random(seed)
         self.map = {}
+        if confusable:   # (tokenA, tokenB): concretise as a type-confusable pair
+            a, b = CONFUSABLE[seed % len(CONFUSABLE)]
+            if _roundtrips(a) and _roundtrips(b):
+                self.map[confusable[0]], self.map[confusable[1]] = a, b
         self.order = list(pool())
         self.rnd.shuffle(self.order)
         if prefer_mutable:  # identity / aliasing checks are only meaningful on non-interned, mutable values
